@@ -77,6 +77,7 @@ class Harness:
         self.profile_factory = profile_factory
         self.sample_error = sample_error
         self.calls = []
+        self.sym_params = {}
         self.records = {"cn": [], "major": {}, "minor": {}}
 
     # ---- stage stubs
@@ -140,6 +141,9 @@ class Harness:
         h = self
         params = dict(params or {})
         params["gap"] = gap
+        for k_ in list(params):
+            if symx.is_sym(params[k_]):
+                self.sym_params[k_] = params.pop(k_)
 
         class FakeSample:
             def __init__(self, gene, profile, path, reference=None, debug=None):
@@ -152,11 +156,17 @@ class Harness:
                 self.coverage = FakeCoverage(profile, h.avg_cov)
 
         class FakeProfile(Profile):
+            def __init__(self, *a, **kw):
+                Profile.__init__(self, *a, **kw)
+                # symbolic parameter values cannot pass Profile.update's float()/int()
+                for k_, v_ in h.sym_params.items():
+                    setattr(self, k_, v_)
+
             @staticmethod
             def load(gene, profile, cn_region=None, **kw):
                 h.calls.append("profile")
-                p = Profile(profile, GRange("22", 1, 100), {"x": 1}, neutral_value=1.0,
-                            **kw)
+                p = FakeProfile(profile, GRange("22", 1, 100), {"x": 1},
+                                neutral_value=1.0, **kw)
                 return p
 
         saved = {}
